@@ -85,6 +85,8 @@ def oracle(case):
         g = G.build(case, case.get("vlevel", 1))
     except gfapy.Error:
         return F
+    if lib.outcome(g.validate)[0] != "ok":
+        return F
     text0 = str(g)
     d0 = G.parse(text0, case["version"])
     if not G.closed(d0) or not all(e["valid"] for e in d0.edges) or d0.dup_names:
